@@ -28,6 +28,18 @@ def mkParent (kvs : List (Key × Rd)) : Key → Rd := fun k =>
   | some (_, r) => r
   | none => .absent
 
+/-- all pending sends of the `Fetch` in progress (the driver's channel never fills up) -/
+def sendAll : Nat → St → St
+  | 0, s => s
+  | n + 1, s => match send s with
+    | some s' => sendAll n s'
+    | none => s
+
+/-- `Fetch`: lock part, then its sends -/
+def fetchAll (s : St) (tx : TxId) (ks : List Key) : St × Bool :=
+  let (s1, ok) := fetch s tx ks
+  (sendAll (s1.sending.length + 1) s1, ok)
+
 /-- idle workers receive queued tasks at once -/
 def fill : Nat → St → St
   | 0, s => s
@@ -80,7 +92,7 @@ def runFree (conc : Nat) (parent : Key → Rd) (txs : List (TxId × List Key)) :
   let rec go (fuel : Nat) (s : St) : List (TxId × List Key) → Bool
     | [] => (drain parent fuel (waitCall s)).err.isSome
     | (tx, ks) :: rest =>
-      let (s1, ok) := fetch s tx ks
+      let (s1, ok) := fetchAll s tx ks
       if !ok then true else go fuel (drain parent fuel s1) rest
   if go 100000 (init conc) txs then "err" else "ok"
 
@@ -106,7 +118,7 @@ def step (d : D) (ws : List String) : D × String :=
   | op :: tx :: ks =>
     if op == "fetch" || op == "fetchk" then
       if d.waited then (d, "bad-op") else
-      let (s', ok) := fetch d.s tx ks
+      let (s', ok) := fetchAll d.s tx ks
       ({ d with s := fillOk s' }, if ok then "ok" else "err")
     else if op == "sync" then
       (d, if (tx :: ks).all (· ∈ d.s.inflight) then "synced" else "not-requested")
